@@ -3,13 +3,13 @@
 # in the warm scratch worktree /tmp/wt/confirm (checked out at /repo HEAD): demo without patch must pass, with patch must fail,
 # and the 70 baseline tests must pass with the patch
 set -u
-D=$1; WT=/tmp/wt/confirm
+D=$1; WT=${CONFIRM_WT:-/tmp/wt/confirm}
 [ -n "${SEED_SYNC:-}" ] && git -C $WT checkout -q --detach $(git -C /repo rev-parse HEAD) 2>/dev/null; git -C $WT checkout -q -- . 
-rm -f $D/demo; ( cd $D && sh ./build.sh $WT >/tmp/seedconfirm_clean.log 2>&1 ); c=$?
-[ -x $D/demo ] && { ( cd $D && ./demo >>/tmp/seedconfirm_clean.log 2>&1 ); c=$?; }
+rm -f $D/demo; ( cd $D && sh ./build.sh $WT >/tmp/seedconfirm_clean_$$.log 2>&1 ); c=$?
+[ -x $D/demo ] && { ( cd $D && ./demo >>/tmp/seedconfirm_clean_$$.log 2>&1 ); c=$?; }
 git -C $WT apply $D/patch.diff || { echo "$D: patch does not apply"; exit 3; }
-rm -f $D/demo; ( cd $D && sh ./build.sh $WT >/tmp/seedconfirm_patched.log 2>&1 ); p=$?
-[ -x $D/demo ] && { ( cd $D && ./demo >>/tmp/seedconfirm_patched.log 2>&1 ); p=$?; }
+rm -f $D/demo; ( cd $D && sh ./build.sh $WT >/tmp/seedconfirm_patched_$$.log 2>&1 ); p=$?
+[ -x $D/demo ] && { ( cd $D && ./demo >>/tmp/seedconfirm_patched_$$.log 2>&1 ); p=$?; }
 b=$(nice /verif/tools/run_baseline.sh $WT | tail -2 | tr '\n' ' ')
 git -C $WT checkout -q -- .
 echo "$D: demo clean rc=$c, patched rc=$p; baseline with patch: $b"
